@@ -17,7 +17,7 @@ RULE = ("kinds: plain (random rows, arity 1-3, constructed with no mappings; obs
         "hand-permuted, so stored order != sorted order), empty (0 rows — fresh empty mappings or supplied non-empty ones; arity 1-3 must "
         "survive; plain screens whose 2-d treatment arrays are handed over column-major), nan_dose (NaN doses; "
         "implementation-side predicate only), each as a Screen "
-        "or as ExperimentSpace.from_screen; 1-3 consecutive save_h5/load_h5 cycles through real h5py files. Names: '', "
+        "or as ExperimentSpace.from_screen, or an ExperimentSpace built directly from mapping arrays (ids with gaps, any order); 1-3 consecutive save_h5/load_h5 cycles through real h5py files. Names: '', "
         "non-ASCII incl. 3- and 4-byte UTF-8, unequal lengths, inner/trailing blanks; control name '', ASCII, non-ASCII; doses incl. "
         "-0.0, subnormal, inf; observations as raw bit patterns incl. -0.0, subnormals, +-inf, quiet/signalling NaN payloads, "
         "random 64-bit patterns. Non-trivial: at least 2 rows; distinct by canonical description."
@@ -409,6 +409,15 @@ def gen(rng, tier):
             sel[0] = True
         yield dict(kind="reuse" if sel else "plain", rows=rows, arity=a, ctrl=ctrl, obs_given=True, mask_given=True, sel=sel, shuffle=None,
                    k=rng.choice([1, 2]), space=(i % 3 == 2))
+    for i in range(30 * N):  # experiment spaces built directly from mapping arrays: library-wide ids with gaps, any stored order
+        nt, ns = rng.randint(0, 6), rng.randint(0, 5)
+        tids = rng.sample(range(0, 40), nt) if rng.random() < 0.7 else list(range(nt))
+        sids = rng.sample(range(0, 30), ns) if rng.random() < 0.7 else list(range(ns))
+        ctrl = rng.choice(MYCTRLS)
+        tmap = [[rng.choice(["a", "b", "drug \u00e9", "", "zz"]) + str(j), rng.choice([0.5, 1.0, 2.0, 1e-9, 3.25]), t] for j, t in enumerate(tids)]
+        if rng.random() < 0.6:
+            tmap.insert(rng.randrange(len(tmap) + 1), [ctrl, 0.0, -1])
+        yield dict(kind="space_direct", tmap=tmap, smap=[["s%d" % j, t] for j, t in enumerate(sids)], ctrl=ctrl, k=rng.choice([1, 2, 3]))
     for i in range(16 * N):  # screens without rows (constructible): fresh (empty) mappings / supplied non-empty mappings
         ctrl = rng.choice(MYCTRLS)
         rows, a = _rows(rng, n=[0, 2, 0, 3][i % 4], ctrl=ctrl)
@@ -513,11 +522,56 @@ def _run_merged(desc):
         shutil.rmtree(tmp, ignore_errors=True)
 
 
+def _run_space_direct(desc):
+    """an ExperimentSpace built directly from mapping arrays (the constructor validates nothing: ids with gaps, any order, ids
+    shared by several names) saved and loaded 1-3 times: every array must come back exactly (implementation-side predicate)"""
+    from batchie.data import ExperimentSpace
+
+    tm = (np.array([r[0] for r in desc["tmap"]], dtype=str), np.array([r[1] for r in desc["tmap"]], dtype=float),
+          np.array([r[2] for r in desc["tmap"]], dtype=int))
+    sm = (np.array([r[0] for r in desc["smap"]], dtype=str), np.array([r[1] for r in desc["smap"]], dtype=int))
+    feats = ["space_direct", "cycles%d" % desc["k"]]
+    ids = sorted(set(int(x) for x in tm[2]) - {-1})
+    if ids and ids != list(range(len(ids))):
+        feats.append("treatment_ids_with_gaps")
+    sids = sorted(set(int(x) for x in sm[1]))
+    if sids and sids != list(range(len(sids))):
+        feats.append("sample_ids_with_gaps")
+    os.makedirs(common.WORK, exist_ok=True)
+    tmp = tempfile.mkdtemp(prefix="c02_", dir=common.WORK)
+    try:
+        def snap(sp):
+            return dict(tn=[str(x) for x in sp.treatment_mapping[0]], td=[float(x).hex() for x in sp.treatment_mapping[1]],
+                        ti=[int(x) for x in sp.treatment_mapping[2]], sn=[str(x) for x in sp.sample_mapping[0]],
+                        si=[int(x) for x in sp.sample_mapping[1]], ctrl=str(sp.control_treatment_name))
+        sp0 = common.impl_call(lambda: ExperimentSpace(treatment_mapping=tm, sample_mapping=sm, control_treatment_name=desc["ctrl"]))
+        if isinstance(sp0, ImplError):
+            return dict(wire=None, impl=None, pred=None, features=feats + ["trivial"])
+        want, cur, pred = snap(sp0), sp0, None
+        for c in range(desc["k"]):
+            p = os.path.join(tmp, "space%d.h5" % c)
+            r = common.impl_call(lambda: (cur.save_h5(p), ExperimentSpace.load_h5(p))[1])
+            if isinstance(r, ImplError):
+                pred = "space_direct_load_raises: cycle %d: %r" % (c + 1, r)
+                break
+            cur = r
+            got = snap(cur)
+            bad = [k for k in want if want[k] != got[k]]
+            if bad:
+                pred = "space_direct_changed: cycle %d: %s of a directly constructed ExperimentSpace changed: %r -> %r" % (c + 1, bad[0], want[bad[0]], got[bad[0]])
+                break
+        return dict(wire=None, impl=None, pred=pred, features=feats)
+    finally:
+        shutil.rmtree(tmp, ignore_errors=True)
+
+
 def run(desc):
     from batchie.data import ExperimentSpace, Screen
 
     if desc["kind"] == "merged":
         return _run_merged(desc)
+    if desc["kind"] == "space_direct":
+        return _run_space_direct(desc)
     os.makedirs(common.WORK, exist_ok=True)
     tmp = tempfile.mkdtemp(prefix="c02_", dir=common.WORK)
     try:
